@@ -1,5 +1,6 @@
 (* EncodeTie.v -- source tie for pyjelly/serialize/encode.py: split_iri and the TermEncoder core
-   (__init__, start_statement, _entry_index with its per-statement bound, encode_iri_indices), translated
+   (__init__, start_statement, _entry_index with its per-statement bound, encode_iri_indices, encode_iri,
+   encode_literal, encode_default_graph), encode_namespace_declaration and encode_options, translated
    from the source on every run (generated/EncodeGen.v), against model/Encoder.v.
    Strings are instantiated the way the model has them: a str is the list of its UTF-8 bytes; the two
    separators split_iri looks for are ASCII, so splitting at the byte and at the character coincide. *)
@@ -124,14 +125,6 @@ Definition msg_of_row (r : row) : pbval str :=
   | _ => PMsg "RdfStreamRow" []
   end.
 
-Ltac step_lookup H :=
-  match goal with
-  | |- context [LookupEncoder_encode_prefix_term_index SN ?k ?t] =>
-      destruct (LookupEncoder_encode_prefix_term_index SN k t) as [[?v|?e] ?t'] eqn:?Eg
-  | |- context [LookupEncoder_encode_name_term_index SN ?k ?t] =>
-      destruct (LookupEncoder_encode_name_term_index SN k t) as [[?v|?e] ?t'] eqn:?Eg
-  end.
-
 (* TermEncoder.encode_iri_indices: same entry rows, same prefix and name ids, related states -- or both refuse *)
 Theorem source_encode_iri_indices_is_model (iri : str) g m : Rt g m ->
   match TermEncoder_encode_iri_indices SN iri g, E.encode_iri iri m with
@@ -211,7 +204,149 @@ Proof.
        close_goal).
 Qed.
 
+(* TermEncoder.encode_iri: the rows of encode_iri_indices; the two ids are written into the RdfIri message *)
+Definition iri_msg (p n : N) : pbval str :=
+  PMsg "RdfIri" [("prefix_id"%string, PInt (Z.of_N p)); ("name_id"%string, PInt (Z.of_N n))].
+
+Theorem source_encode_iri_is_model (iri : str) g m : Rt g m ->
+  match TermEncoder_encode_iri SN iri (PMsg "RdfIri" []) g, E.encode_iri iri m with
+  | (Val rows, g', msg), Ok (m', mrows, mp, mn) => rows = map msg_of_row mrows /\ msg = iri_msg mp mn /\ Rt g' m'
+  | (Exn _, _, _), Err _ => True
+  | _, _ => False
+  end.
+Proof.
+  intros HR. unfold TermEncoder_encode_iri.
+  pose proof (source_encode_iri_indices_is_model iri g m HR) as H.
+  destruct (TermEncoder_encode_iri_indices SN iri g) as [[[[rows p] n]|e] g'];
+    destruct (E.encode_iri iri m) as [[[[m' mrows] mp] mn]|e']; try contradiction; [|exact I].
+  destruct H as (-> & -> & -> & HR'). split; [reflexivity|]. split; [reflexivity | exact HR'].
+Qed.
+
+(* encode_namespace_declaration: a new statement, the IRI's entry rows, then the declaration row *)
+Definition ns_msg (name : str) (p n : N) : pbval str :=
+  PMsg "RdfStreamRow" [("namespace"%string, PMsg "RdfNamespaceDeclaration" [("name"%string, PStr name); ("value"%string, iri_msg p n)])].
+
+Definition msg_of_row' (r : row) : pbval str :=
+  match r with RNamespace name p n => ns_msg name p n | _ => msg_of_row r end.
+
+Lemma msg_of_row'_entries rows : (forall r, In r rows -> match r with RNamespace _ _ _ => False | _ => True end) ->
+  map msg_of_row' rows = map msg_of_row rows.
+Proof.
+  induction rows as [|r rows IH]; intros H; [reflexivity|]. cbn [map].
+  rewrite IH by (intros r' Hr'; apply H; right; exact Hr').
+  specialize (H r (or_introl eq_refl)). destruct r; try reflexivity. contradiction.
+Qed.
+
+Theorem source_encode_namespace_declaration_is_model (name iri : str) g m : Rt g m ->
+  match encode_namespace_declaration SN name iri g, E.encode_namespace_declaration name iri m with
+  | (Val rows, g'), Ok (m', mrows) =>
+      exists entries p n, mrows = entries ++ [RNamespace name p n] /\ rows = map msg_of_row entries ++ [ns_msg name p n] /\ Rt g' m'
+  | (Exn _, _), Err _ => True
+  | _, _ => False
+  end.
+Proof.
+  intros HR. unfold encode_namespace_declaration, E.encode_namespace_declaration.
+  pose proof (source_start_statement_is_model g m HR) as H0.
+  destruct (TermEncoder_start_statement SN g) as [[u|e] g0]; [|contradiction].
+  pose proof (source_encode_iri_is_model iri g0 (E.start_statement m) H0) as H.
+  destruct (TermEncoder_encode_iri SN iri (PMsg "RdfIri" []) g0) as [[[rows|e] g'] msg];
+    destruct (E.encode_iri iri (E.start_statement m)) as [[[[m' mrows] mp] mn]|e']; try contradiction; cbn [bind]; [|exact I].
+  destruct H as (-> & -> & HR'). exists mrows, mp, mn. split; [reflexivity|]. split; [reflexivity | exact HR'].
+Qed.
+
+(* encode_options: the options row says what the three option objects say *)
+Definition options_msg (o : woptions) : pbval str :=
+  PMsg "RdfStreamRow" [("options"%string, PMsg "RdfStreamOptions" [
+    ("stream_name"%string, PStr (o_name o)); ("physical_type"%string, PInt (Z.of_N (o_phys o)));
+    ("generalized_statements"%string, PBool (o_gen o)); ("rdf_star"%string, PBool (o_star o));
+    ("max_name_table_size"%string, PInt (Z.of_N (o_maxn o))); ("max_prefix_table_size"%string, PInt (Z.of_N (o_maxp o)));
+    ("max_datatype_table_size"%string, PInt (Z.of_N (o_maxd o))); ("logical_type"%string, PInt (Z.of_N (o_logical o)));
+    ("version"%string, PInt (Z.of_N (o_version o)))])].
+
+Theorem source_encode_options_is_model (o : woptions) (delim nd : bool) :
+  encode_options SN (mk_LookupPreset (Z.of_N (o_maxn o)) (Z.of_N (o_maxp o)) (Z.of_N (o_maxd o)))
+                    (mk_StreamTypes (Z.of_N (o_phys o)) (Z.of_N (o_logical o)))
+                    (mk_StreamParameters (o_gen o) (o_star o) (Z.of_N (o_version o)) delim nd (o_name o : carrier SN)) =
+  Val (options_msg o).
+Proof. reflexivity. Qed.
+
+(* TermEncoder.encode_literal *)
+Definition lit_msg (lex : str) (k : wlitkind) : pbval str :=
+  PMsg "RdfLiteral" (("lex"%string, PStr lex) ::
+    match k with LkNone => [] | LkLang l => [("langtag"%string, PStr l)] | LkDt d => [("datatype"%string, PInt (Z.of_N d))] end).
+
+Lemma xsd_string_lit :
+  s_lit SN [104; 116; 116; 112; 58; 47; 47; 119; 119; 119; 46; 119; 51; 46; 111; 114; 103; 47; 50; 48; 48; 49; 47; 88; 77; 76; 83; 99; 104;
+            101; 109; 97; 35; 115; 116; 114; 105; 110; 103] = xsd_string.
+Proof. reflexivity. Qed.
+
+Lemma lit_lang (lex : str) (lang : option str) (lit0 : pbval str) :
+  lit0 = PMsg "RdfLiteral" [("lex"%string, PStr lex)] ->
+  match lang with
+  | Some l => if negb (is_nil l) then msg_set ["langtag"%string; "datatype"%string] "langtag" (PStr l) lit0 else lit0
+  | None => lit0
+  end = lit_msg lex (match E.truthy lang with Some l => LkLang l | None => LkNone end).
+Proof.
+  intros ->. unfold E.truthy. destruct lang as [l|]; [|reflexivity].
+  destruct (is_nil l); reflexivity.
+Qed.
+
+Theorem source_encode_literal_is_model (lex : str) (lang dt : option str) g m : Rt g m ->
+  match TermEncoder_encode_literal SN lex lang dt (PMsg "RdfLiteral" []) g, E.encode_literal lex lang dt m with
+  | (Val rows, g', msg), Ok (m', mrows, WLit lex' k) => rows = map msg_of_row mrows /\ msg = lit_msg lex' k /\ Rt g' m'
+  | (Exn _, _, _), Err _ => True
+  | _, _ => False
+  end.
+Proof.
+  intros HR. pose proof HR as (Hn & Hp & Hd & Kn & Kp & Kd).
+  unfold TermEncoder_encode_literal, E.encode_literal. rewrite xsd_string_lit. norm.
+  assert (Hnodt : forall (g0 : TermEncoder SN),
+    (let literal := msg_set ["lex"%string] "lex" (PStr lex) (PMsg "RdfLiteral" []) in
+     match lang with
+     | Some language =>
+         if negb (is_nil language)
+         then let literal0 := msg_set ["langtag"%string; "datatype"%string] "langtag" (PStr language) literal in (Val (@nil (pbval str)), g0, literal0)
+         else let language0 := Some language in (Val [], g0, literal)
+     | None => (Val [], g0, literal)
+     end) = (Val [], g0, lit_msg lex (match E.truthy lang with Some l => LkLang l | None => LkNone end))).
+  { intros g0. cbv zeta. unfold E.truthy. destruct lang as [l|]; [|reflexivity]. destruct (is_nil l); reflexivity. }
+  destruct dt as [d|].
+  2:{ change (E.truthy (@None str)) with (@None str). cbv zeta. rewrite Hnodt. cbn [bind negb N.eqb].
+      split; [reflexivity|]. split; [reflexivity | exact HR]. }
+  change (E.truthy (Some d)) with (if is_nil d then @None str else Some d).
+  destruct (is_nil d) eqn:Ed; cbn [negb].
+  { cbv zeta. rewrite Hnodt. cbn [bind negb N.eqb]. split; [reflexivity|]. split; [reflexivity | exact HR]. }
+  destruct (str_eqb d xsd_string) eqn:Ex; cbn [negb].
+  { cbv zeta. rewrite Hnodt. cbn [bind negb N.eqb]. split; [reflexivity|]. split; [reflexivity | exact HR]. }
+  pose proof Hd as (Hdl & _ & _). pose proof Hdl as (_ & Hdmax & _).
+  unfold E.lmax. rewrite Hdmax. norm.
+  destruct (M.l_max (M.e_lookup (E.t_datatypes m)) =? 0)%N eqn:E0.
+  { match goal with |- context [if (?a =? 0) then _ else _] => replace (a =? 0) with true by lia end. exact I. }
+  match goal with |- context [if (?a =? 0) then _ else _] => replace (a =? 0) with false by lia end.
+  pose proof (tie_entry_index (TermEncoder_datatypes g) (E.t_datatypes m) (TermEncoder__datatype_keys g) d Hd) as H1.
+  rewrite Kd in H1 |- *.
+  destruct (TermEncoder__entry_index SN (TermEncoder_datatypes g) (E.t_dkeys m) d) as [[[r|e] td] kd];
+    destruct (E.entry_index (E.t_datatypes m) (E.t_dkeys m) d) as [[[mtd mkd] r']|e']; try contradiction; cbn [bind]; [|exact I].
+  destruct H1 as (-> & Hd' & ->). rsimpl.
+  pose proof (tie_encode_datatype_term_index SN d td mtd Hd') as H2. norm.
+  destruct r' as [eid|]; cbn [zo option_map];
+    (destruct (LookupEncoder_encode_datatype_term_index SN d td) as [[dv|derr] td2];
+     destruct (M.encode_datatype_term_index str_eqb d mtd) as [[mtd2 mdv]|]; try contradiction; cbn [E.lift bind]; [|exact I];
+     destruct H2 as (-> & Hd2); rsimpl).
+  all: cbv zeta; unfold E.truthy;
+    (destruct (mdv =? 0)%N eqn:Em;
+     [replace (Z.of_N mdv =? 0) with true by lia | replace (Z.of_N mdv =? 0) with false by lia]);
+    (destruct lang as [l|]; [destruct (is_nil l)|]); cbn [negb bind];
+    (split; [reflexivity|]; split; [reflexivity|];
+     unfold Rt; rsimpl; cbn [E.t_names E.t_prefixes E.t_datatypes E.t_nkeys E.t_pkeys E.t_dkeys];
+     split; [exact Hn|]; split; [exact Hp|]; split; [exact Hd2|]; split; [exact Kn|]; split; [exact Kp | reflexivity]).
+Qed.
+
 Print Assumptions source_split_iri_is_model.
 Print Assumptions source_term_encoder_init_is_model.
 Print Assumptions source_start_statement_is_model.
 Print Assumptions source_encode_iri_indices_is_model.
+Print Assumptions source_encode_iri_is_model.
+Print Assumptions source_encode_namespace_declaration_is_model.
+Print Assumptions source_encode_options_is_model.
+Print Assumptions source_encode_literal_is_model.
